@@ -50,6 +50,12 @@ def hist_line(elt, m0, ops):
 def hist_term(elt, m0, ops):
     return "@mat_hist %s %s %s %s" % (ARITH[elt], FLAT[elt], coq_mat(elt, m0), coq_list([op_coq(elt, o) for o in ops]))
 
+def histeq_line(elt, m0, ops):
+    return "mat.histeq " + tok_mat(elt, m0) + " " + " ".join(op_line(elt, o) for o in ops)
+
+def histeq_term(elt, m0, ops):
+    return "@mat_histeq %s %s %s %s" % (ARITH[elt], FLAT[elt], coq_mat(elt, m0), coq_list([op_coq(elt, o) for o in ops]))
+
 # ------------------------------------------------------------------ reference model: list of rows
 class RefPanic(Exception):
     pass
@@ -166,9 +172,10 @@ def ref_items_scalar(elt, x):
         x = complex(x); return [('f', f64_bits(x.real)), ('f', f64_bits(x.imag))]
     raise ValueError(elt)
 
-def ref_items_mat(elt, m):
+def ref_items_mat(elt, m, eq=False):
     out = [('i', m.r), ('i', m.c)]
     for x in m.flat(): out += ref_items_scalar(elt, x)
+    if eq: out.append(('i', 1))       # a matrix always equals (==) a freshly built one with the same entries
     return out
 
 def ref_items_val(elt, v):
@@ -181,10 +188,10 @@ def ref_items_val(elt, v):
     if v[0] == 'm': return ref_items_mat(elt, v[1])
     if v[0] == 'n': return [('i', v[1])]
 
-def ref_hist(elt, m0, ops):
+def ref_hist(elt, m0, ops, eq=False):
     """expected item stream of a history under the reference model (exact element types)"""
     m = RefMat(*m0)
-    out = ref_items_mat(elt, m)
+    out = ref_items_mat(elt, m, eq)
     for op in ops:
         snap = m.copy()
         try:
@@ -193,7 +200,7 @@ def ref_hist(elt, m0, ops):
         except RefPanic:
             m = snap
             out += [('P', 'guard')]
-        out += ref_items_mat(elt, m)
+        out += ref_items_mat(elt, m, eq)
     return out
 
 def streams_equal_exact(exp, got):
